@@ -19,6 +19,7 @@ ASSUMPTIONS = ["pytrie longest-prefix contract stub", "pydantic BaseModel stub (
 
 SHAPES = [
     ("lossless", [[1, 1]], False, Q), ("lossless", [[0, 1], [0, 0]], True, Q), ("lossless", [[1, 1], [0, 1]], False, Q),
+    ("lossless", [[1, 1]], False, Q, dict(params=dict(built="merge"))), ("lossless", [[0, 1], [0, 0]], False, Q, dict(params=dict(built="merge"))),
     ("inverse", [[1, 1]], False, Q), ("inverse", [[0, 1], [0, 0]], False, Q), ("inverse", [[1, 0], [0, 1]], True, Q),
     ("lossless", [[1, 1], [1, 1]], True, T, dict(budget=1200, shard=6)),
     ("lossless", [[0, 1], [0, 1], [0, 0]], False, T, dict(budget=1800, shard=8)),
@@ -35,9 +36,16 @@ def build(job):
     fn, params = job["fn"], job["params"]
 
     def lossless(eng):
-        recs, delim, c = fixture(eng, params)
         u = eng.var("uri")
         q = _s(u)
+
+        def warm(cv):
+            cur0 = cv.compress(u)
+            if cur0 is not None:
+                cv.expand_all(cur0)
+                cv.expand(cur0)
+            cv.standardize_uri(u)
+        recs, delim, c = fixture(eng, params, warm=warm)
         cur = c.compress(u)
         if cur is None:
             return "not-a-uri"
